@@ -113,8 +113,8 @@ common = ("Written model in the harness: n classes, class i may name <= 2 direct
           "only: precedence = class, direct supers in written order, then each direct super's tail, first occurrence kept, standard-object, t; "
           "slot = supplied initarg, else initform of the first class in precedence having one, else unbound (slot-boundp nil, slot-value signals); "
           "undeclared slot -> condition; undeclared initarg -> condition. Checked for EVERY class of the family: class-precedence (also after every "
-          "prefix of the history for each class that is complete at that point), one instance per subset of {:ka,:kb,:k} (8 subsets, undeclared "
-          "initargs one at a time) with both slots' boundness and value, typep against every class + standard-object + t, class-of/find-class, and "
+          "prefix of the history for each class that is complete at that point; a class with a still undefined superclass must refuse make-instance with a condition), one instance per subset of {:ka,:kb,:k} (8 subsets, undeclared "
+          "initargs one at a time) with both slots' boundness and value, (setf slot-value) with a symbolic value changing that slot of that instance only (the first instance is re-read after all the others were made), typep against every class + standard-object + t, class-of/find-class, and "
           "dispatch of a generic function with methods on a sampled subset of the classes (most specific applicable method, or no-applicable-method). "
           "Expected conditions are provoked with concrete values only (slip prints the form in the report; printing a symbolic integer forks per digit). "
           "Two supplied initargs naming the same slot: slip signals an explicit error where CLHS 7.1.4 takes the leftmost; outside C12, only 'value or "
@@ -145,7 +145,7 @@ spec = [
      "max_depth": 400, "max_steps": 400000000, "solver_timeout_ms": 10000, "overrides": OVR, "carves": [C1, C2, C3],
      "note": common + "This obligation: every slot specifier also declares :reader, :writer and :accessor (names unique per class and slot); for every "
              "pair (declaring class k, instance class c): applicable iff k is in the precedence list of c (else a condition); writer then reader, (setf "
-             "accessor) then accessor and slot-value return the written symbolic value, and the other slot keeps its initial value/boundness (locality). "
+             "accessor) then accessor and slot-value return the written symbolic value, and the other slot keeps its initial value/boundness (locality); slot-makunbound unbinds that slot only. "
              "slip's writer takes (object value), CLOS (value object): the harness follows slip's documented order. Half of the cases carry a "
              "redefinition (readers of the final definitions only). Bounds: quick 2 cases n=2, 4 cases n=3; thorough +10 n=2, +50 n=3, +10 n=4."},
 ]
